@@ -25,15 +25,15 @@ var drivers = map[string]driver{}
 
 // G is the generation context handed to a driver.
 type G struct {
-	Tier   string
-	Seed   int64
-	R      *Rand
-	ws     []*bufio.Writer
-	fs     []*os.File
-	cnt    int
-	Counts map[string]int
-	seen   map[uint64]struct{} // hashes of the recorded events (distinctness is measured, not assumed)
-	nontrivial int             // distinct events that are non-trivial by the family's rule
+	Tier       string
+	Seed       int64
+	R          *Rand
+	ws         []*bufio.Writer
+	fs         []*os.File
+	cnt        int
+	Counts     map[string]int
+	seen       map[uint64]struct{} // hashes of the recorded events (distinctness is measured, not assumed)
+	nontrivial int                 // distinct events that are non-trivial by the family's rule
 }
 
 // nonTrivialer is implemented by event types with a notion of a trivial case.
